@@ -1,5 +1,41 @@
-"""dispatch for generators outside summation.py (filled in by c08/c09)"""
+"""dispatch for generators outside summation.py"""
 
 
 def call(c, name, a):
-    raise ValueError('unknown generator ' + name)
+    from cirbo.synthesis.generation.arithmetics import subtraction as SB, equality as EQ, div_mod as DM, sqrt as SQ
+    from cirbo.synthesis.generation import generation as GG
+    be = {'big_endian': bool(a.get('big_endian', False))}
+    if name == 'add_sub2':
+        return list(SB.add_sub2(c, a['ins'], **be))
+    if name == 'add_sub3':
+        return list(SB.add_sub3(c, a['ins'], **be))
+    if name == 'add_sub_two_numbers':
+        return list(SB.add_sub_two_numbers(c, a['a'], a['b'], **be))
+    if name == 'add_subtract_with_compare':
+        r, bal = SB.add_subtract_with_compare(c, a['a'], a['b'], **be)
+        return [list(r), bal]
+    if name == 'add_equal':
+        return EQ.add_equal(c, a['ins'], a['num'])
+    if name == 'add_plus_one':
+        rl = a.get('result_labels')
+        return list(GG.add_plus_one(c, list(a['ins']), result_labels=None if rl is None else list(rl),
+                                    add_outputs=bool(a.get('add_outputs', False)), **be))
+    if name == 'add_if_then_else':
+        return GG.add_if_then_else(c, a['if'], a['then'], a['else'], result_label=a.get('result_label'),
+                                   add_outputs=bool(a.get('add_outputs', False)))
+    if name == 'add_pairwise_if_then_else':
+        rl = a.get('result_labels')
+        return list(GG.add_pairwise_if_then_else(c, list(a['if']), list(a['then']), list(a['else']),
+                                                 result_labels=None if rl is None else list(rl),
+                                                 add_outputs=bool(a.get('add_outputs', False))))
+    if name == 'add_pairwise_xor':
+        rl = a.get('result_labels')
+        return list(GG.add_pairwise_xor(c, list(a['x']), list(a['y']), result_labels=None if rl is None else list(rl),
+                                        add_outputs=bool(a.get('add_outputs', False))))
+    if name == 'add_div_mod':
+        d, m = DM.add_div_mod(c, a['a'], a['b'], **be)
+        return [list(d), list(m)]
+    if name == 'add_sqrt':
+        return list(SQ.add_sqrt(c, a['ins'], **be))
+    from props import gencalls2
+    return gencalls2.call(c, name, a)
